@@ -75,7 +75,8 @@ def build_driver():
 
 def build_harness():
     """Rebuild the harness against /repo's current working tree (cargo decides what is stale)."""
-    rc, out = sh("cargo build --offline -q", cwd=os.path.join(ROOT, "harness"), timeout=1800)
+    env = dict(ENV, CARGO_TARGET_DIR=os.path.join(BUILD, "target"))
+    rc, out = sh("cargo build --offline -q", cwd=os.path.join(ROOT, "harness"), timeout=1800, env=env)
     return rc == 0, out
 
 
